@@ -41,7 +41,8 @@ Proof.
       * destruct (cstep c s serial cost false (CWait x)) as [[q' s1]|] eqn:E; [|discriminate]. apply cstep_rd in E.
         intros H; inversion H; subst. left. cbn. tauto.
       * destruct o; intros H; inversion H; subst; now left.
-    + destruct (locked s); [discriminate|]. destruct src; intros H; inversion H; subst; [right; now exists n | now left].
+    + destruct (locked s); [discriminate|]. destruct src; [destruct (is_nil (s_senders s))|]; intros H; inversion H; subst;
+        [now left | right; now exists n | now left].
     + destruct (x_inbox x); [destruct (closed (x_chan x) s); [|discriminate]|]; intros H; inversion H; subst; now left.
   - destruct p; try discriminate. destruct (send_try c s cost) as [ok s1] eqn:E. apply send_try_rd in E.
     intros H; inversion H; subst. left. cbn. tauto.
@@ -184,7 +185,7 @@ Proof.
         -- destruct (cstep c s serial cost false (CWait x)) as [[q' s1]|] eqn:E; [|discriminate]. pose proof (cstep_np _ _ _ _ _ _ _ E) as Hp'.
            apply cstep_rd in E. inversion Hs; subst. apply Hset; [tauto | exact Hp'].
         -- cbn in Ht. destruct o; inversion Hs; subst; apply Hset; try reflexivity; discriminate.
-      * destruct (locked s); [discriminate|]. destruct src; inversion Hs; subst; now apply Hset.
+      * destruct (locked s); [discriminate|]. destruct src; [destruct (is_nil (s_senders s))|]; inversion Hs; subst; now apply Hset.
       * destruct (x_inbox x); [destruct (closed (x_chan x) s); [|discriminate]|]; inversion Hs; subst; now apply Hset.
     + destruct p; try discriminate. destruct (send_try c s cost) as [ok s1] eqn:E. apply send_try_rd in E.
       inversion Hs; subst. apply Hset; [tauto | now destruct ok].
@@ -193,8 +194,9 @@ Qed.
 Theorem no_panic c ts tr s : forallb np_task ts = true -> reach c ts tr s -> forallb np_task (s_tasks s) = true.
 Proof. intros Hn Hr. induction Hr as [|tr s l s' Hr IH Hs]; [exact Hn | eapply np_step; eassumption]. Qed.
 
-(* ---------------------------------------------------------------- the full statement is refuted *)
-(* a bus connection; the AddMatch reply of a subscription is the last thing the peer sends before the stream ends *)
+(* ---------------------------------------------------------------- the former race (fixed by 3703ee13) *)
+(* a bus connection; the AddMatch reply of a subscription is the last thing the peer sends before the stream ends.  With the
+   unrepaired add_match this history ended in a stuck, non-final state (a stream that never ends); now the insert is refused *)
 Definition race_cfg : cfg :=
   {| msgs := [{| i_len := 24; i_class := MReply 101 |}]; fpos := 24; fkind := EEof; wbudget := None; bus := true; cap := fun _ => 8 |}.
 Definition race_tasks : list task := [TStream (Some 0) 101 1 SNew].
@@ -202,11 +204,10 @@ Definition race_trace : list label :=
   [LTask 0; LTask 0; LTask 0; LTask 0;                          (* check, mutex, activate the reply receiver, send AddMatch *)
    LRecv 24; LBcast 0; LBcast 0; LBcast 0; LBcastEnd;           (* the reply arrives and is broadcast *)
    LFault; LBcast 0; LBcast 0; LBcast 0; LBcastEnd;             (* end-of-file: error to every channel, senders.clear() *)
-   LTask 0; LTask 0; LTask 0].                                  (* add_match resumes with its Ok reply and inserts *)
+   LTask 0; LTask 0; LTask 0].                                  (* add_match resumes with its Ok reply, re-tests, refuses *)
 Definition race_state : st :=
-  {| s_pos := 24; s_next := 1; s_rd := RdDone; s_senders := [KRule 0]; s_subs := [0]; s_sublock := false;
-     s_tasks := [TStream (Some 0) 101 1 (SOpen {| x_chan := CSub 0; x_from := 1; x_got := []; x_inbox := [] |})];
-     s_broken := false; s_wcalls := 1 |}.
+  {| s_pos := 24; s_next := 1; s_rd := RdDone; s_senders := []; s_subs := []; s_sublock := false;
+     s_tasks := [TStream (Some 0) 101 1 (SFail OPipe)]; s_broken := false; s_wcalls := 1 |}.
 
 Lemma race_run : run race_cfg race_trace (init race_tasks) = Some race_state.
 Proof. vm_compute. reflexivity. Qed.
@@ -214,14 +215,14 @@ Proof. vm_compute. reflexivity. Qed.
 Lemma race_wf : wf race_cfg.
 Proof. split; [|intros; cbn; lia]. intros m [<-|[]]. cbn. lia. Qed.
 
-Theorem race_refutes :
+Example race_now_fails_promptly :
   wf race_cfg /\ forallb fresh_task race_tasks = true /\ reach race_cfg race_tasks race_trace race_state /\
-  stuck race_cfg race_state /\ ~ final race_state /\ raced race_state = true.
+  stuck race_cfg race_state /\ final race_state.
 Proof.
-  split; [exact race_wf|]. split; [reflexivity|]. split; [apply run_sound; exact race_run|]. split; [|split; [|reflexivity]].
+  split; [exact race_wf|]. split; [reflexivity|]. split; [apply run_sound; exact race_run|]. split.
   - intros l. destruct l as [n| |j| |i]; try reflexivity. cbn [step]. unfold tstep. destruct i as [|i]; [reflexivity|].
     cbn. now destruct i.
-  - intros [_ H]. discriminate H.
+  - split; reflexivity.
 Qed.
 
 (* ---------------------------------------------------------------- non-vacuity: a session that fails in the middle *)
@@ -251,12 +252,9 @@ Proof.
   repeat split.
 Qed.
 
-Lemma race_exists : exists (c : cfg) (ts : list task) (tr : list label) (s : st),
-  wf c /\ forallb fresh_task ts = true /\ reach c ts tr s /\ stuck c s /\ ~ final s /\ raced s = true.
-Proof. exists race_cfg, race_tasks, race_trace, race_state. exact race_refutes. Qed.
-
+(* the property at full strength *)
 Definition full_statement : Prop :=
   forall (c : cfg) (ts : list task) (tr : list label) (s : st),
     wf c -> forallb fresh_task ts = true -> reach c ts tr s -> stuck c s -> final s.
-Lemma full_statement_refuted : ~ full_statement.
-Proof. intros H. destruct race_refutes as (Hwf & Hf & Hr & Hst & Hnf & _). exact (Hnf (H _ _ _ _ Hwf Hf Hr Hst)). Qed.
+Theorem full_statement_holds : full_statement.
+Proof. intros c ts tr s Hwf _ Hr Hst. exact (stuck_final c ts tr s Hwf Hr Hst). Qed.
